@@ -11,8 +11,7 @@ REPO = os.environ.get("VERIF_REPO", "/repo")
 
 # assumed std specifications available to every unit (widen the accepted subset so that small edits in
 # /repo that use these functions stay within the verifier's reach); listed as assumptions in the evidence
-STD_PRELUDE = """pub assume_specification<T>[ core::mem::replace::<T> ](dest: &mut T, src: T) -> (r: T) ensures *final(dest) == src, r == *old(dest);
-"""
+STD_PRELUDE = open(os.path.join(VERIF, "units", "_std_prelude.rs")).read()
 
 class LostAnchor(Exception):
     pass
@@ -138,7 +137,7 @@ def build(unit, strict=True, mutate=None, pid=None, degrade=(), extras=()):
     t = Template(unit, strict=strict, pid=pid)
     b = Built(); b.template = t
     chunks = ["// GENERATED by /verif/vf from /repo working tree + units/%s.rs -- do not edit\nuse vstd::prelude::*;\nverus! {\nglobal size_of usize == 8;\n" % unit + STD_PRELUDE]
-    b.ranges.append({"start": 1, "end": 6, "label": "<header>", "real": False})
+    b.ranges.append({"start": 1, "end": 5 + STD_PRELUDE.count("\n"), "label": "<header>", "real": False})
     rules = ["vis", "static", "attr"] + t.meta["rewrite"]
     for s in t.sections:
         if s.kind == "spec":
